@@ -7,7 +7,7 @@ TAGS = ['awaited', 'stuck', 'alg', 'setflag']
 RULE = ('(a) scope trees: nested (until-)scopes (depth <= 3, <= 3 children each, volatile or delayed), bodies and children that '
         'sleep/raise (regular and privileged types)/return, cancels from inside and from a separate activity after t time units '
         'and k postponements, deadlines and flags on a coarse time grid, everything wrapped in handlers that log what they catch; '
-        '(b) random valid whole-API programs (no usage errors); (c) condition expression trees (depth <= 3) over flags / tracked values / task completion / time atoms awaited by 1-4 waiters while other activities change the values (also reverting within a step), flat connectives whose operands flicker over several time steps before all of them hold, plus `bool()` probes of derived conditions; non-trivial = a connective or inverted condition was awaited or probed')
+        '(b) random valid whole-API programs (no usage errors); (c) condition expression trees (depth <= 3) over flags / tracked values / task completion / time atoms awaited by 1-4 waiters while other activities change the values (also reverting within a step), flat connectives whose operands flicker over several time steps before all of them hold, conditions derived step by step with the operators `&` / `|` and kept in variables, plus `bool()` probes of derived conditions; non-trivial = a connective or inverted condition was awaited or probed')
 
 
 import gen
@@ -110,6 +110,43 @@ def flicker_family(rng):
     return ['scenario', ['debug', 1], ['start', 0], ['flags', n], ['locks', 0], ['roots'] + roots]
 
 
+def operator_family(rng):
+    """conditions derived with the operators `&` / `|` step by step and kept in variables: `both = a & b`, later
+    `everything = both & c` (the operators spread an `All` / `Any` operand into a new flat object and must leave `both`
+    as it is).  Both objects are probed and awaited while the flags go back and forth; finally every flag is set"""
+    n = 3
+    op = rng.choice(['and', 'and', 'or'])
+    order = rng.sample(range(n), n)
+    atoms = [['flag', i] for i in order]
+    if rng.random() < 0.3:
+        atoms[rng.randrange(n)] = ['tracked', 0, 4, 2]
+    first = [op, atoms[0], atoms[1]]
+    second = [op, ['ref', 0], atoms[2]] if rng.random() < 0.7 else [op, atoms[2], ['ref', 0]]
+    setup = ['prog', ['defcond', 0, first]]
+    if rng.random() < 0.5:
+        setup += [['sleep', rng.choice([0, F(1, 2)])]]
+    setup += [['defcond', 1, second], ['logcond', ['ref', 0]], ['logcond', ['ref', 1]]]
+    roots = [setup]
+    for i in range(rng.randint(1, 3)):
+        which = rng.choice([0, 0, 1])
+        roots.append(['prog', ['sleep', rng.choice([F(1, 4), F(3, 4), F(3, 2)])], ['logcond', ['ref', which]], ['await', ['ref', which]], ['log', 100 + i],
+                      ['logcond', ['ref', 0]], ['logcond', ['ref', 1]]])
+    walk = [['sleep', 1]]
+    for _ in range(rng.randint(3, 7)):
+        if rng.random() < 0.8:
+            walk.append(['set', rng.randrange(n), rng.random() < 0.5])
+        else:
+            walk.append(['settracked', 0, rng.choice([0, 1, 2, 3])])
+        walk.append(['sleep', rng.choice([1, 1, 0])])
+        if rng.random() < 0.4:
+            walk += [['logcond', ['ref', 0]], ['logcond', ['ref', 1]]]
+    for i in range(n):
+        walk += [['set', i, True], ['sleep', rng.choice([1, 0])]]
+    walk += [['settracked', 0, 3], ['sleep', 1], ['logcond', ['ref', 0]], ['logcond', ['ref', 1]]]
+    roots.append(['prog'] + walk)
+    return ['scenario', ['debug', 1], ['start', 0], ['flags', n], ['locks', 0], ['tracked', 0], ['roots'] + roots]
+
+
 #: known finding F8: a connective nested in a connective loses wake-ups
 F8_PROBE = ['scenario', ['debug', 1], ['start', 0], ['flags', 3], ['locks', 0],
             ['roots', ['prog', ['await', ['all', ['any', ['flag', 0], ['flag', 1]], ['flag', 2]]], ['log', 1]],
@@ -123,7 +160,7 @@ def nontrivial(impl):
     return sum(1 for e in impl['events'] if ':awaited:' in e or ':alg:' in e) >= 2
 
 
-SOURCES = [scopesuite.scope_tree, scopesuite.valid_scenario, cond_family, revert_family, flicker_family]
+SOURCES = [scopesuite.scope_tree, scopesuite.valid_scenario, cond_family, revert_family, flicker_family, operator_family]
 
 
 def run(tier, seed, drv):
